@@ -114,7 +114,20 @@ def _can_precede(func, a, b) -> bool:
     return ib in r
 
 
-def slice_params(func, roots, at_nodes, depth=8, whole=False):
+def _controlling_tests(func, st):
+    """Tests of the if/while statements of func that enclose statement st."""
+    out = []
+    n = getattr(st, "_parent", None)
+    while n is not None and n is not func:
+        if isinstance(n, (ast.If, ast.While)):
+            out.append(n.test)
+        elif isinstance(n, ast.IfExp):
+            out.append(n.test)
+        n = getattr(n, "_parent", None)
+    return out
+
+
+def slice_params(func, roots, at_nodes, depth=8, whole=False, control=False):
     """Parameters of func that may flow into the expressions `roots` (evaluated at statements
     `at_nodes`, parallel lists).  Follows plain assignments, tuple-unpackings, for-targets,
     augmented assignments and mutations (x.append(y), x[k] = y, x.update(y)) of names in the slice."""
@@ -156,6 +169,11 @@ def slice_params(func, roots, at_nodes, depth=8, whole=False):
             for s in srcs:
                 for nm2 in names_of(s):
                     work.append((nm2, st, d - 1))
+            if control and isinstance(st, ast.AST):
+                # a definition that only happens under a condition depends on that condition
+                for t in _controlling_tests(func, st):
+                    for nm2 in names_of(t):
+                        work.append((nm2, st, d - 1))
         if nm in params and not defs:
             found.add(nm)
         # mutations of this name anywhere in the function contribute their arguments
@@ -212,12 +230,15 @@ def analyse(func):
         for a in list(c.args) + [k.value for k in c.keywords]:
             roots.append(a.value if isinstance(a, ast.Starred) else a)
             ats.append(c)
-    tparams = slice_params(func, roots, ats, whole=True)
+    tparams = slice_params(func, roots, ats, whole=True, control=CONTROL)
     # what the function builds: return values
     roots, ats = [], []
     for n in walk_no_nested(func):
         if isinstance(n, ast.Return) and n.value is not None:
             roots.append(n.value)
             ats.append(n)
-    bparams = slice_params(func, roots, ats)
+    bparams = slice_params(func, roots, ats, control=CONTROL)
     return tparams, bparams, kc
+
+
+CONTROL = True
